@@ -24,6 +24,7 @@ PROBES = ['fault_inside_pushed_block', 'handler_ran_after_fault',
           'with_only_new_md', 'subtemplate_pushed_defaults',
           'tree_expand_all_transient', 'recursion_guard_fired',
           'in_batch_param_site', 'sort_key_cmp_site', 'attr_site',
+          'falsy_mapping_pushed',
           'fault_between_in_push_and_try', 'let_arg_fault', 'persistent_fault']
 RULE = ('programs: seeded ASTs over text/var/if/elif/else/unless/call/in '
         '(lists, tuples, iterators, lazy lists, mappings, batches, sort, '
@@ -187,7 +188,9 @@ class Gen:
             if kind == 'str':
                 out.append('s%d' % i)
             elif kind == 'map':
-                out.append({'map': {'a': 'a%d' % i, 'n': i % 2}})
+                # now and then a falsy (empty) but perfectly valid mapping
+                out.append({'map': {}} if self.r.random() < 0.2 else
+                           {'map': {'a': 'a%d' % i, 'n': i % 2}})
             elif kind == 'pair':
                 out.append({'pair': ['k%d' % i, {'obj': {'a': 'a%d' % i},
                                                  'sites': ['fa']}]})
@@ -263,7 +266,8 @@ class Gen:
         mapping = r.random() < 0.4
         only = r.random() < 0.3
         if mapping:
-            self.script[w] = {'map': {'wv': 'w'}, 'fallback': True}
+            self.script[w] = {'map': {} if r.random() < 0.25 else {'wv': 'w'},
+                              'fallback': True}
         else:
             self.script[w] = {'obj': {'wv': 'w'}, 'fallback': True}
         return {'k': 'with', 'src': {'site': w, 'how': r.choice(
@@ -644,6 +648,10 @@ def _run_case(case):
                 probe('finally_ran_with_pending_exception')
             if len(env.fired) > 1:
                 probe('pair_second_fault_fired')
+        if any(e.md is not None and any(
+                isinstance(x, E.Map) and not len(x) for x in e.data)
+                for e in env.log):
+            probe('falsy_mapping_pushed')
         if any(e.md is not None and e.md is not env.log[0].md
                for e in env.log if env.log[0].md is not None):
             probe('with_only_new_md')
